@@ -47,7 +47,7 @@ GSpec == GInit /\ [][GNext]_gvars
 CONSTANT MaxOdd
 UIs    == {"none", "user", "userpw", "enc", "crlf", "emptypw", "long"}
 HostFs == {"plain", "upper", "idn", "ip4", "ip6", "ip6long", "pctcrlf", "pcttab"}
-PortFs == {"none", "default", "other", "padded", "xdef"}
+PortFs == {"none", "default", "other", "padded", "xdef", "zero"}
 PathFs == {"p", "empty", "slash", "space", "crlf", "delims", "uni", "dots", "pct", "bslash", "semi", "at"}
 QueryFs == {"none", "kv", "space", "crlf", "uni", "amp", "qmark", "hashenc"}
 FragFs == {"none", "f", "spacef"}
